@@ -30,12 +30,16 @@ pub enum Op {
     /// one MOV.W Rs,@aa:16 over the DRs of ports p (odd) and p+1: a 16-bit access is the composition of two byte
     /// accesses, each port latches its own byte
     DrWord(u8, u8, u8),
+    /// a CPU write to an address that is *not* a port register but looks like one to a sloppy decoder: a port
+    /// register's address plus a multiple of 2^8 / 2^16 / 2^24, or with one of the bits 8-31 flipped. Whether the
+    /// write fails (inaccessible) or lands in plain storage, no port may notice.
+    Stray(u32, u8),
 }
 impl Op {
     fn port(&self) -> Option<u8> {
         match *self {
             Op::Ddr(p, _) | Op::Dr(p, _) | Op::Pins(p, _) | Op::PinsLine(p, _) | Op::DrMov(p, _) | Op::DrBit(p, _, _) | Op::DrWord(p, _, _) => Some(p),
-            Op::Tick(_) => None,
+            Op::Tick(_) | Op::Stray(..) => None,
         }
     }
     /// is a message about port `q` a possible consequence of this op?
@@ -119,6 +123,7 @@ fn execute(emu: &mut Emu, ops: &[Op]) -> Result<Vec<([u8; 11], Vec<String>)>, St
     emu.cpu.bus.cpu_state_sum = 0;
     let _ = emu.drain_msgs();
     let mut out = vec![];
+    let mut undo: Vec<(u32, u8)> = vec![];
     for (i, op) in ops.iter().enumerate() {
         let r: Result<(), String> = match *op {
             Op::Ddr(p, v) => emu.cpu.bus.write(ddr_addr(p), v).map_err(|e| e.to_string()),
@@ -153,6 +158,13 @@ fn execute(emu: &mut Emu, ops: &[Op]) -> Result<Vec<([u8; 11], Vec<String>)>, St
                 emu.cpu.bus.cpu_state_sum = emu.cpu.bus.cpu_state_sum.wrapping_add(n as usize);
                 Ok(())
             }
+            Op::Stray(a, v) => {
+                if let Some(old) = raw_get(&emu.cpu.bus, a) {
+                    undo.push((a, old));
+                }
+                let _ = emu.cpu.bus.write(a, v);
+                Ok(())
+            }
             Op::DrWord(p, hi, lo) => {
                 let insn = Insn::Store { sz: Sz::W, s: 0, ea: Ea::A16(dr_addr(p) as u16) };
                 for (k, b) in encode(&insn).iter().enumerate() {
@@ -177,6 +189,9 @@ fn execute(emu: &mut Emu, ops: &[Op]) -> Result<Vec<([u8; 11], Vec<String>)>, St
     }
     for k in 0..8 {
         raw_set(&mut emu.cpu.bus, CODE + k, baseline_byte(CODE + k));
+    }
+    for (a, old) in undo.into_iter().rev() {
+        raw_set(&mut emu.cpu.bus, a, old);
     }
     Ok(out)
 }
@@ -204,6 +219,7 @@ fn check_pure(ops: &[Op], obs: &[([u8; 11], Vec<String>)]) -> Result<(), String>
                 ports[p as usize - 1].latch = hi;
                 ports[p as usize].latch = lo;
             }
+            Op::Stray(..) => {}
         }
         let (reads, msgs) = &obs[i];
         for p in 0..11 {
@@ -279,6 +295,7 @@ fn check_merged(ops: &[Op], obs: &[([u8; 11], Vec<String>)]) -> bool {
                 wr_dr(&mut ports[p as usize - 1], p, hi, &mut exp);
                 wr_dr(&mut ports[p as usize], p + 1, lo, &mut exp);
             }
+            Op::Stray(..) => {}
         }
         let (reads, msgs) = &obs[i];
         for p in 0..11 {
@@ -310,7 +327,17 @@ fn build_history(e: &mut Ent) -> Vec<Op> {
     for _ in 0..n {
         let p = if e.chance(1, 2) { p1 } else { p2 };
         let v = values(e);
-        ops.push(match e.below(13) {
+        ops.push(match e.below(14) {
+            13 => {
+                let base = if e.chance(1, 2) { dr_addr(p) } else { ddr_addr(p) };
+                let a = match e.below(4) {
+                    0 => base.wrapping_add(0x100 * (1 + e.below(4))),
+                    1 => base.wrapping_add(0x0100_0000 * (1 + e.below(255))),
+                    2 => base ^ (1u32 << (8 + e.below(24))),
+                    _ => base.wrapping_add(0x1_0000 * (1 + e.below(3))),
+                };
+                Op::Stray(a, v)
+            }
             12 => {
                 // the pair (p, p+1) with p odd: the DR of an odd port sits at an even address
                 let q = if p >= 10 { 9 } else { p | 1 };
@@ -374,7 +401,7 @@ fn ops_json(ops: &[Op]) -> Value {
     json!({"kind": "port-history", "ops": ops.iter().map(|o| match *o {
         Op::Ddr(p, v) => json!(["ddr", p, v]), Op::Dr(p, v) => json!(["dr", p, v]), Op::Pins(p, v) => json!(["pins", p, v]),
         Op::PinsLine(p, v) => json!(["pinsline", p, v]), Op::DrMov(p, v) => json!(["drmov", p, v]),
-        Op::DrBit(p, b, s) => json!(["drbit", p, b, s]), Op::Tick(n) => json!(["tick", n]), Op::DrWord(p, h, l) => json!(["drword", p, h, l]) }).collect::<Vec<_>>()})
+        Op::DrBit(p, b, s) => json!(["drbit", p, b, s]), Op::Tick(n) => json!(["tick", n]), Op::DrWord(p, h, l) => json!(["drword", p, h, l]), Op::Stray(a, v) => json!(["stray", a, v]) }).collect::<Vec<_>>()})
 }
 fn ops_from_json(v: &Value) -> Option<Vec<Op>> {
     Some(
@@ -392,6 +419,7 @@ fn ops_from_json(v: &Value) -> Option<Vec<Op>> {
                     "pinsline" => Op::PinsLine(a as u8, b as u8),
                     "drmov" => Op::DrMov(a as u8, b as u8),
                     "drword" => Op::DrWord(a as u8, b as u8, o.get(3)?.as_u64()? as u8),
+                    "stray" => Op::Stray(a as u32, b as u8),
                     "drbit" => Op::DrBit(a as u8, b as u8, o.get(3)?.as_bool()?),
                     _ => Op::Tick(a),
                 })
